@@ -25,3 +25,23 @@ RS8_ORDER_FREE = {
 # RN3: additional value writers on the randomize path (function -> reason)
 RN3_WRITERS = {
 }
+
+# ST1: uses of Python's global `random` that are by design (key = function qual without the vsc. prefix)
+ST1_GLOBAL_RANDOM = {
+    "model.rand_state.RandState.mk":
+        "documented default: without an explicit state the per-object seed is drawn once from Python's global random module",
+    "methods.randomize":
+        "documented default for free-standing vsc.randomize(): the one-call RandState is seeded from the global random module",
+    "methods.randomize_with":
+        "documented default for free-standing vsc.randomize_with(): the one-call RandState is seeded from the global random module",
+    "methods.distselect":
+        "procedural helper outside any object: specified to follow the global random seed",
+    "model.rand_info_builder.RandInfoBuilder.build":
+        "`rng = random` fallback feeds RandInfoBuilder.randint/sample only, which only visit_covergroup (generator path, not live) calls",
+    "model.coverpoint_cross_model.CoverpointCrossModel.select_unhit_bin":
+        "coverage-driven generator path only (reached from RandInfoBuilder.visit_covergroup, which returns unless inside a generator)",
+}
+
+# ST3: effects under a diagnostic guard that are accepted (key = "<function>:<effect>")
+ST3_DIAG_EFFECTS = {
+}
